@@ -2159,18 +2159,96 @@ Qed.
 Lemma fr_rank_order_In g x : In x (rank_order g) <-> In x g.
 Proof. unfold rank_order. apply sort_by_In. Qed.
 
-Lemma fr_best_of_spec g b : best_of g = Some b -> In b g /\ forall x, In x g -> f_sc x <= f_sc b.
+Lemma fr_best_of_spec l b : best_of l = Some b -> In b l /\ forall x, In x l -> f_sc x <= f_sc b.
 Proof.
-  unfold best_of. destruct (rank_order g) as [|r0 rt] eqn:E; [discriminate|]. intros H. injection H as Hb.
-  pose proof (fr_fold_best (r0 :: rt) r0) as P. cbv zeta in P. cbn [fold_left] in P. rewrite Hb in P. destruct P as [H1 [_ H3]]. split.
-  - apply fr_rank_order_In. rewrite E. destruct H1 as [->|H1]; [left; reflexivity|exact H1].
-  - intros x Hx. apply H3. rewrite <- E. apply fr_rank_order_In. exact Hx.
+  unfold best_of. destruct l as [|r0 rt]; [discriminate|]. intros H. injection H as Hb.
+  pose proof (fr_fold_best (r0 :: rt) r0) as P. cbv zeta in P. cbn [fold_left] in P, Hb. rewrite Hb in P. destruct P as [H1 [_ H3]]. split.
+  - destruct H1 as [->|H1]; [left; reflexivity|exact H1].
+  - exact H3.
 Qed.
 
-Lemma fr_best_of_some g : g <> [] -> exists b, best_of g = Some b.
+Lemma fr_best_of_some l : l <> [] -> exists b, best_of l = Some b.
+Proof. intros Hl. unfold best_of. destruct l as [|r0 rt]; [contradiction|eexists; reflexivity]. Qed.
+
+(* the tie rule (repair of filter_results_score_tie_set_order): best_of returns the FIRST hit of the list with the
+   highest score *)
+Definition fr_first_max (l : list fhit) (b : fhit) : Prop :=
+  exists l1 l2, l = l1 ++ b :: l2 /\ (forall x, In x l1 -> f_sc x < f_sc b) /\ (forall x, In x l2 -> f_sc x <= f_sc b).
+
+Lemma fr_fold_first_max : forall l p1 b0 p2,
+  (forall x, In x p1 -> f_sc x < f_sc b0) -> (forall x, In x p2 -> f_sc x <= f_sc b0) ->
+  fr_first_max ((p1 ++ b0 :: p2) ++ l) (fold_left (fun best h => if f_sc best <? f_sc h then h else best) l b0).
 Proof.
-  intros Hg. unfold best_of. destruct (rank_order g) as [|r0 rt] eqn:E; [|eexists; reflexivity].
-  destruct g as [|x t]; [contradiction|]. assert (In x (rank_order (x :: t))) by (apply fr_rank_order_In; left; reflexivity).
+  induction l as [|h l IH]; intros p1 b0 p2 H1 H2; cbn [fold_left].
+  - exists p1, p2. rewrite app_nil_r. auto.
+  - destruct (f_sc b0 <? f_sc h) eqn:E.
+    + replace ((p1 ++ b0 :: p2) ++ h :: l) with (((p1 ++ b0 :: p2) ++ h :: []) ++ l)
+        by (rewrite <- app_assoc; reflexivity).
+      apply IH; [|intros x []].
+      intros x Hx. apply in_app_or in Hx. destruct Hx as [Hx|[<-|Hx]]; [specialize (H1 x Hx); lia|lia|specialize (H2 x Hx); lia].
+    + replace ((p1 ++ b0 :: p2) ++ h :: l) with ((p1 ++ b0 :: (p2 ++ [h])) ++ l)
+        by (rewrite <- !app_assoc; cbn; rewrite <- app_assoc; reflexivity).
+      apply IH; [exact H1|].
+      intros x Hx. apply in_app_or in Hx. destruct Hx as [Hx|[<-|[]]]; [apply H2; exact Hx|lia].
+Qed.
+
+Lemma fr_best_of_first_max l b : best_of l = Some b -> fr_first_max l b.
+Proof.
+  unfold best_of. destruct l as [|r0 rt]; [discriminate|]. intros H. injection H as Hb. subst b.
+  cbn [fold_left]. rewrite Z.ltb_irrefl.
+  apply (fr_fold_first_max rt [] r0 []); intros x [].
+Qed.
+
+Lemma fr_first_max_unique : forall l b b', fr_first_max l b -> fr_first_max l b' -> b = b'.
+Proof.
+  intros l b b' [l1 [l2 [E [A1 A2]]]] [l1' [l2' [E' [B1 B2]]]]. subst l.
+  revert l1' E' A1 B1. induction l1 as [|a l1 IH]; intros l1' E' A1 B1.
+  - destruct l1' as [|a' l1']; cbn in E'; [injection E' as ->; reflexivity|]. exfalso.
+    injection E' as <- E'. specialize (B1 b (or_introl eq_refl)).
+    assert (In b' l2) by (rewrite E'; apply in_or_app; right; left; reflexivity). specialize (A2 b' H). lia.
+  - destruct l1' as [|a' l1']; cbn in E'.
+    + exfalso. injection E' as -> E'. specialize (A1 b' (or_introl eq_refl)).
+      assert (In b l2') by (rewrite <- E'; apply in_or_app; right; left; reflexivity). specialize (B2 b H). lia.
+    + injection E' as <- E'. apply (IH l1' E'); intros x Hx; [apply A1|apply B1]; right; exact Hx.
+Qed.
+
+Lemma fr_first_max_best_of l b : fr_first_max l b -> best_of l = Some b.
+Proof.
+  intros H. destruct (fr_best_of_some l) as [b' Eb'].
+  - destruct H as [l1 [l2 [-> _]]]. destruct l1; discriminate.
+  - rewrite Eb'. f_equal. apply (fr_first_max_unique l); [apply fr_best_of_first_max; exact Eb'|exact H].
+Qed.
+
+(* the best hit of a list is still the best of any sublist that keeps it *)
+Lemma fr_best_of_filter (f : fhit -> bool) l b : best_of l = Some b -> f b = true -> best_of (filter f l) = Some b.
+Proof.
+  intros Eb Hf. apply fr_first_max_best_of. destruct (fr_best_of_first_max l b Eb) as [l1 [l2 [-> [A1 A2]]]].
+  exists (filter f l1), (filter f l2). rewrite filter_app. cbn [filter]. rewrite Hf. split; [reflexivity|].
+  split; intros x Hx; apply filter_In in Hx; destruct Hx as [Hx _]; auto.
+Qed.
+
+(* the best hit of a group: searched in the order of the gene's hit list *)
+Definition gbest (mine g : list fhit) : option fhit := best_of (hit_order mine g).
+
+Lemma fr_hit_order_In mine g x : NoDup (map f_id mine) -> incl g mine -> (In x (hit_order mine g) <-> In x g).
+Proof.
+  intros ND Hg. unfold hit_order. rewrite filter_In. split.
+  - intros [Hx Hm]. apply (fr_fmem_In mine g x ND Hg Hx Hm).
+  - intros Hx. split; [apply Hg; exact Hx|apply fr_In_fmem; exact Hx].
+Qed.
+
+Lemma fr_gbest_spec mine g b : NoDup (map f_id mine) -> incl g mine -> gbest mine g = Some b ->
+  In b g /\ forall x, In x g -> f_sc x <= f_sc b.
+Proof.
+  intros ND Hg E. destruct (fr_best_of_spec _ b E) as [H1 H2]. split.
+  - apply (fr_hit_order_In mine g b ND Hg). exact H1.
+  - intros x Hx. apply H2. apply (fr_hit_order_In mine g x ND Hg). exact Hx.
+Qed.
+
+Lemma fr_gbest_some mine g : NoDup (map f_id mine) -> incl g mine -> g <> [] -> exists b, gbest mine g = Some b.
+Proof.
+  intros ND Hg Hne. apply fr_best_of_some. destruct g as [|x t]; [contradiction|]. intros E.
+  assert (In x (hit_order mine (x :: t))) by (apply (fr_hit_order_In mine _ x ND Hg); left; reflexivity).
   rewrite E in H. contradiction.
 Qed.
 
@@ -2240,45 +2318,109 @@ Proof.
       * destruct (J i Hi) as [JR JM]. split; intros r Hr; apply filter_In in Hr; destruct Hr as [Hr _]; auto.
 Qed.
 
-(* r is a member (by identity) of g other than g's best *)
-Definition fr_dead (g : list fhit) (r : fhit) : bool :=
-  match best_of g with None => false | Some b => existsb (fun h => fr_p1 b h r) (rank_order g) end.
-Definition fr_bad (gs : list (list fhit)) (r : fhit) : bool := existsb (fun g => fr_dead g r) gs.
+(* r is a member (by identity) of g other than g's best (the first of the highest scoring hits of g in the list `mine`) *)
+Definition fr_dead (mine g : list fhit) (r : fhit) : bool :=
+  match gbest mine g with None => false | Some b => existsb (fun h => fr_p1 b h r) (rank_order g) end.
+Definition fr_bad (mine : list fhit) (gs : list (list fhit)) (r : fhit) : bool := existsb (fun g => fr_dead mine g r) gs.
 
-Lemma fr_group_pass_filter : forall R M rem g, fr_J (R, M, rem) ->
+(* one group, as long as the live list still yields the best hit of the original list *)
+Lemma fr_group_pass_filter mine : forall R M rem g, fr_J (R, M, rem) -> best_of (hit_order M g) = gbest mine g ->
   exists rem', group_pass (R, M, rem) g
-               = (filter (fun r => negb (fr_dead g r)) R, filter (fun r => negb (fr_dead g r)) M, rem')
-               /\ fr_J (filter (fun r => negb (fr_dead g r)) R, filter (fun r => negb (fr_dead g r)) M, rem').
+               = (filter (fun r => negb (fr_dead mine g r)) R, filter (fun r => negb (fr_dead mine g r)) M, rem')
+               /\ fr_J (filter (fun r => negb (fr_dead mine g r)) R, filter (fun r => negb (fr_dead mine g r)) M, rem').
 Proof.
-  intros R M rem g J. unfold group_pass, fr_dead. destruct (best_of g) as [b|].
+  intros R M rem g J E. unfold group_pass, fr_dead. rewrite E. destruct (gbest mine g) as [b|].
   - apply (fr_fold_filter (removal_step b) (fr_p1 b)); [apply fr_removal_step_filter|exact J].
   - exists rem. rewrite !fr_filter_true by reflexivity. split; [reflexivity|exact J].
 Qed.
 
-Lemma fr_groups_pass_filter gs R M rem : fr_J (R, M, rem) ->
-  exists rem', fold_left group_pass gs (R, M, rem)
-               = (filter (fun r => negb (fr_bad gs r)) R, filter (fun r => negb (fr_bad gs r)) M, rem').
+Lemma fr_dead_member mine g r : fr_dead mine g r = true ->
+  exists b h, gbest mine g = Some b /\ In h g /\ f_id h = f_id r /\ f_id h <> f_id b.
 Proof.
-  intros J. destruct (fr_fold_filter group_pass fr_dead fr_group_pass_filter gs R M rem J) as [rem' [E _]].
-  exists rem'. exact E.
+  unfold fr_dead. destruct (gbest mine g) as [b|]; [|discriminate]. intros H.
+  apply existsb_exists in H. destruct H as [h [Hh Hp]]. apply (proj1 (fr_rank_order_In g h)) in Hh.
+  unfold fr_p1 in Hp. apply andb_true_iff in Hp. destruct Hp as [P1 P2].
+  apply Z.eqb_eq in P1. apply negb_true_iff, Z.eqb_neq in P2. exists b, h. auto.
+Qed.
+
+(* the best hit of a group is removed by no group (groups are pairwise disjoint) *)
+Lemma fr_gbest_not_bad mine gs g b : NoDup (map f_id mine) -> fr_inv mine gs -> fr_pd gs -> In g gs ->
+  gbest mine g = Some b -> forall done, incl done gs -> fr_bad mine done b = false.
+Proof.
+  intros ND Inv Pd Hg Eb done Hd. destruct (fr_bad mine done b) eqn:E; [|reflexivity]. exfalso.
+  unfold fr_bad in E. apply existsb_exists in E. destruct E as [g' [Hg' H]].
+  destruct (fr_dead_member mine g' b H) as [b' [h [Eb' [Hh [Eid Hne]]]]].
+  destruct (Inv g Hg) as [I1 _]. destruct (Inv g' (Hd g' Hg')) as [I1' _].
+  destruct (fr_gbest_spec mine g b ND I1 Eb) as [Hbg _].
+  assert (h = b) by (apply (fr_id_inj mine ND); [apply I1'; exact Hh|apply I1; exact Hbg|exact Eid]). subst h.
+  destruct (Pd g g' Hg (Hd g' Hg')) as [<-|D].
+  - rewrite Eb in Eb'. injection Eb' as <-. apply Hne. reflexivity.
+  - exact (D b Hbg Hh).
+Qed.
+
+(* so the live list `cdsresults` (the gene's list minus what earlier groups removed) gives the same best hit *)
+Lemma fr_live_best mine gs g done : NoDup (map f_id mine) -> fr_inv mine gs -> fr_pd gs -> In g gs -> incl done gs ->
+  best_of (hit_order (filter (fun r => negb (fr_bad mine done r)) mine) g) = gbest mine g.
+Proof.
+  intros ND Inv Pd Hg Hd. unfold hit_order at 1. rewrite fr_filter_filter.
+  assert (E : filter (fun x => negb (fr_bad mine done x) && fmem x g) mine
+              = filter (fun r => negb (fr_bad mine done r)) (hit_order mine g)).
+  { unfold hit_order. rewrite fr_filter_filter. apply filter_ext. intros x. apply andb_comm. }
+  rewrite E. unfold gbest. destruct (best_of (hit_order mine g)) as [b|] eqn:Eb.
+  - apply fr_best_of_filter; [exact Eb|]. rewrite (fr_gbest_not_bad mine gs g b ND Inv Pd Hg Eb done Hd). reflexivity.
+  - unfold best_of in Eb. destruct (hit_order mine g); [reflexivity|discriminate].
+Qed.
+
+Lemma fr_bad_app mine a b r : fr_bad mine (a ++ b) r = fr_bad mine a r || fr_bad mine b r.
+Proof. unfold fr_bad. apply existsb_app. Qed.
+
+Lemma fr_groups_pass_go mine gs : NoDup (map f_id mine) -> fr_inv mine gs -> fr_pd gs ->
+  forall todo done R rem, incl done gs -> incl todo gs ->
+  fr_J (R, filter (fun r => negb (fr_bad mine done r)) mine, rem) ->
+  exists rem', fold_left group_pass todo (R, filter (fun r => negb (fr_bad mine done r)) mine, rem)
+               = (filter (fun r => negb (fr_bad mine todo r)) R,
+                  filter (fun r => negb (fr_bad mine (done ++ todo) r)) mine, rem').
+Proof.
+  intros ND Inv Pd. induction todo as [|g t IH]; intros done R rem Hd Ht J; cbn [fold_left].
+  - exists rem. rewrite app_nil_r. rewrite (fr_filter_true _ R) by reflexivity. reflexivity.
+  - assert (Hg : In g gs) by (apply Ht; left; reflexivity).
+    destruct (fr_group_pass_filter mine R _ rem g J (fr_live_best mine gs g done ND Inv Pd Hg Hd)) as [rem1 [E1 J1]].
+    rewrite E1.
+    assert (EM : filter (fun r => negb (fr_dead mine g r)) (filter (fun r => negb (fr_bad mine done r)) mine)
+                 = filter (fun r => negb (fr_bad mine (done ++ [g]) r)) mine).
+    { rewrite fr_filter_filter. apply filter_ext. intros r. rewrite fr_bad_app. unfold fr_bad at 3. cbn [existsb].
+      rewrite orb_false_r, negb_orb. reflexivity. }
+    rewrite EM in J1. rewrite EM.
+    destruct (IH (done ++ [g]) (filter (fun r => negb (fr_dead mine g r)) R) rem1) as [rem2 E2]; [| |exact J1|].
+    + intros x Hx. apply in_app_or in Hx. destruct Hx as [Hx|[<-|[]]]; [apply Hd; exact Hx|exact Hg].
+    + intros x Hx. apply Ht. right. exact Hx.
+    + exists rem2. rewrite E2. rewrite fr_filter_filter. rewrite <- app_assoc. cbn [app]. f_equal. f_equal.
+      apply filter_ext. intros r. unfold fr_bad. cbn [existsb]. rewrite negb_orb. reflexivity.
+Qed.
+
+Lemma fr_groups_pass_filter mine gs R rem : NoDup (map f_id mine) -> fr_inv mine gs -> fr_pd gs -> fr_J (R, mine, rem) ->
+  exists rem', fold_left group_pass gs (R, mine, rem)
+               = (filter (fun r => negb (fr_bad mine gs r)) R, filter (fun r => negb (fr_bad mine gs r)) mine, rem').
+Proof.
+  intros ND Inv Pd J.
+  assert (E0 : filter (fun r => negb (fr_bad mine [] r)) mine = mine) by (apply fr_filter_true; reflexivity).
+  pose proof (fr_groups_pass_go mine gs ND Inv Pd gs [] R rem (fun x (H : In x []) => match H with end) (incl_refl _)) as G.
+  rewrite E0 in G. cbn [app] in G. exact (G J).
 Qed.
 
 (* for a hit of the gene: bad = it belongs to a group whose best is another hit *)
 Lemma fr_bad_iff cds gs r : NoDup (map f_id cds) -> fr_inv cds gs -> In r cds ->
-  (fr_bad gs r = true <-> exists g b, In g gs /\ In r g /\ best_of g = Some b /\ b <> r).
+  (fr_bad cds gs r = true <-> exists g b, In g gs /\ In r g /\ gbest cds g = Some b /\ b <> r).
 Proof.
-  intros ND Inv Hr. unfold fr_bad, fr_dead. rewrite existsb_exists. split.
-  - intros [g [Hg H]]. destruct (best_of g) as [b|] eqn:Eb; [|discriminate].
-    apply existsb_exists in H. destruct H as [h [Hh Hp]]. apply (proj1 (fr_rank_order_In g h)) in Hh.
-    unfold fr_p1 in Hp. apply andb_true_iff in Hp. destruct Hp as [P1 P2].
-    apply Z.eqb_eq in P1. apply negb_true_iff, Z.eqb_neq in P2.
+  intros ND Inv Hr. unfold fr_bad. rewrite existsb_exists. split.
+  - intros [g [Hg H]]. destruct (fr_dead_member cds g r H) as [b [h [Eb [Hh [P1 P2]]]]].
     destruct (Inv g Hg) as [I1 _].
     assert (h = r) by (apply (fr_id_inj cds ND); [apply I1; exact Hh|exact Hr|exact P1]). subst h.
     exists g, b. repeat split; auto. intros ->. apply P2. reflexivity.
-  - intros [g [b [Hg [Hrg [Eb Hne]]]]]. exists g. split; [exact Hg|]. rewrite Eb.
+  - intros [g [b [Hg [Hrg [Eb Hne]]]]]. exists g. split; [exact Hg|]. unfold fr_dead. rewrite Eb.
     apply existsb_exists. exists r. split; [apply fr_rank_order_In; exact Hrg|].
     unfold fr_p1. rewrite Z.eqb_refl. cbn. apply negb_true_iff, Z.eqb_neq. intros E.
-    destruct (Inv g Hg) as [I1 _]. destruct (fr_best_of_spec g b Eb) as [Hb _].
+    destruct (Inv g Hg) as [I1 _]. destruct (fr_gbest_spec cds g b ND I1 Eb) as [Hb _].
     apply Hne. symmetry. apply (fr_id_inj cds ND); auto.
 Qed.
 
@@ -2299,7 +2441,7 @@ Proof.
   - apply fr_znodup_NoDup. exact H2.
 Qed.
 
-Definition fr_keep (mine : list fhit) (r : fhit) : bool := negb (fr_bad (fr_groups mine) r).
+Definition fr_keep (mine : list fhit) (r : fhit) : bool := negb (fr_bad mine (fr_groups mine) r).
 
 (* (b), for every input of the domain: exactly the hits that are the best of every group they belong
    to survive, in their old order, in the gene's list and in the global list; everything else is untouched *)
@@ -2315,8 +2457,9 @@ Proof.
   intros Hwf Hc J. destruct (fr_fwf_spec mine Hwf) as [Hp ND].
   unfold fr_cds. unfold competing in Hc. apply negb_true_iff in Hc. rewrite Hc.
   rewrite (fr_overlapping_groups_pure mine Hp).
-  destruct (fr_groups_pass_filter (fr_groups mine) results mine removed J) as [rem' E].
-  exists rem'. rewrite E. unfold fr_keep. destruct (filter (fun r => negb (fr_bad (fr_groups mine) r)) mine); reflexivity.
+  destruct (fr_groups_spec mine ND) as [Inv _].
+  destruct (fr_groups_pass_filter mine (fr_groups mine) results removed ND Inv (fr_groups_disjoint mine ND) J) as [rem' E].
+  exists rem'. rewrite E. unfold fr_keep. destruct (filter (fun r => negb (fr_bad mine (fr_groups mine) r)) mine); reflexivity.
 Qed.
 
 Lemma fr_cds_not_competing eqg s mine : competing eqg mine = false ->
@@ -2335,15 +2478,36 @@ Proof.
   apply filter_In in Hx. destruct Hx as [Hx Kx]. apply filter_In in Hy. destruct Hy as [Hy Ky].
   destruct (fov x y) eqn:Ef; [|reflexivity]. exfalso.
   destruct (Cov x y Hx Hy Ef) as [g [Hg [Hxg Hyg]]]. destruct (Inv g Hg) as [_ [_ Hne]].
-  destruct (fr_best_of_some g Hne) as [b Eb].
+  destruct (Inv g Hg) as [Ig _]. destruct (fr_gbest_some mine g ND Ig Hne) as [b Eb].
   unfold fr_keep in Kx, Ky. apply negb_true_iff in Kx. apply negb_true_iff in Ky.
   assert (b = x).
   { destruct (fhit_eq_dec_aux b x) as [E|E]; [exact E|]. exfalso.
-    assert (fr_bad (fr_groups mine) x = true) by (apply (fr_bad_iff mine); auto; exists g, b; auto). congruence. }
+    assert (fr_bad mine (fr_groups mine) x = true) by (apply (fr_bad_iff mine); auto; exists g, b; auto). congruence. }
   assert (b = y).
   { destruct (fhit_eq_dec_aux b y) as [E|E]; [exact E|]. exfalso.
-    assert (fr_bad (fr_groups mine) y = true) by (apply (fr_bad_iff mine); auto; exists g, b; auto). congruence. }
+    assert (fr_bad mine (fr_groups mine) y = true) by (apply (fr_bad_iff mine); auto; exists g, b; auto). congruence. }
   subst x y. unfold fov in Ef. rewrite Z.eqb_refl in Ef. discriminate.
+Qed.
+
+(* whatever the scores (ties included), the assertion `assert results_by_id[cds]` never fires: some hit survives *)
+Lemma fr_some_survivor mine : fwf mine = true -> mine <> [] -> filter (fr_keep mine) mine <> [].
+Proof.
+  intros Hwf Hne. destruct (fr_fwf_spec mine Hwf) as [Hp ND].
+  destruct (fr_groups_spec mine ND) as [Inv _]. pose proof (fr_groups_disjoint mine ND) as Pd.
+  destruct mine as [|h0 t]; [contradiction|]. set (mine := h0 :: t) in *.
+  assert (Hh0 : In h0 mine) by (left; reflexivity).
+  assert (K : exists k, In k mine /\ fr_keep mine k = true).
+  { destruct (existsb (fun g => fmem h0 g) (fr_groups mine)) eqn:Ex.
+    - apply existsb_exists in Ex. destruct Ex as [g [Hg Hm]]. destruct (Inv g Hg) as [I1 [_ I3]].
+      destruct (fr_gbest_some mine g ND I1 I3) as [b Eb]. destruct (fr_gbest_spec mine g b ND I1 Eb) as [Hbg _].
+      exists b. split; [apply I1; exact Hbg|]. unfold fr_keep.
+      rewrite (fr_gbest_not_bad mine (fr_groups mine) g b ND Inv Pd Hg Eb (fr_groups mine) (incl_refl _)). reflexivity.
+    - exists h0. split; [exact Hh0|]. unfold fr_keep. destruct (fr_bad mine (fr_groups mine) h0) eqn:Eb; [|reflexivity]. exfalso.
+      apply (fr_bad_iff mine) in Eb; auto. destruct Eb as [g [b [Hg [Hhg _]]]].
+      assert (existsb (fun g => fmem h0 g) (fr_groups mine) = true); [|congruence].
+      apply existsb_exists. exists g. split; [exact Hg|apply fr_In_fmem; exact Hhg]. }
+  destruct K as [k [Hk Kk]]. intros E.
+  assert (In k (filter (fr_keep mine) mine)) by (apply filter_In; auto). rewrite E in H. contradiction.
 Qed.
 
 (* ---------- the best hit of every connected component *)
@@ -2362,9 +2526,9 @@ Lemma fr_best_survives mine h : fwf mine = true -> distinct_scores mine = true -
 Proof.
   intros Hwf Hd Hh Hc. destruct (fr_fwf_spec mine Hwf) as [Hp ND]. apply fr_znodup_NoDup in Hd.
   destruct (fr_groups_spec mine ND) as [Inv Cov].
-  unfold fr_keep. destruct (fr_bad (fr_groups mine) h) eqn:Eb; [|reflexivity]. exfalso.
+  unfold fr_keep. destruct (fr_bad mine (fr_groups mine) h) eqn:Eb; [|reflexivity]. exfalso.
   apply (fr_bad_iff mine) in Eb; auto. destruct Eb as [g [b [Hg [Hhg [Ebest Hne]]]]].
-  destruct (fr_best_of_spec g b Ebest) as [Hbg Hmax]. destruct (Inv g Hg) as [I1 [I2 _]].
+  destruct (Inv g Hg) as [I1 [I2 _]]. destruct (fr_gbest_spec mine g b ND I1 Ebest) as [Hbg Hmax].
   pose proof (proj1 (comp_best_spec mine h ND Hh) Hc b (I2 h b Hhg Hbg)) as Hle.
   specialize (Hmax h Hhg). apply Hne. apply (fr_key_inj f_sc mine Hd); auto. lia.
 Qed.
@@ -2384,24 +2548,23 @@ Proof.
   - apply existsb_exists in Ex. destruct Ex as [g [Hgin Hm]]. destruct (Inv g Hgin) as [I1 [_ I3]].
     assert (Hhg : In h g) by (apply (fr_fmem_In mine); auto).
     assert (Hog : In o g) by (apply (fr_group_component mine (fr_groups mine) g h ND Inv Pd Cov Hgin Hhg); exact Ho).
-    destruct (fr_best_of_some g I3) as [b Eb]. destruct (fr_best_of_spec g b Eb) as [_ Hmax].
+    destruct (fr_gbest_some mine g ND I1 I3) as [b Eb]. destruct (fr_gbest_spec mine g b ND I1 Eb) as [_ Hmax].
     destruct (fhit_eq_dec_aux b h) as [->|Hne]; [apply Hmax; exact Hog|]. exfalso.
-    assert (fr_bad (fr_groups mine) h = true) by (apply (fr_bad_iff mine); auto; exists g, b; auto). congruence.
+    assert (fr_bad mine (fr_groups mine) h = true) by (apply (fr_bad_iff mine); auto; exists g, b; auto). congruence.
   - destruct (fr_fconn_first_edge mine h o Ho) as [->|[b [Hb Hf]]]; [lia|]. exfalso.
     destruct (Cov h b Hh Hb Hf) as [g [Hgin [Hhg _]]].
     assert (existsb (fun g => fmem h g) (fr_groups mine) = true); [|congruence].
     apply existsb_exists. exists g. split; [exact Hgin|apply fr_In_fmem; exact Hhg].
 Qed.
 
-Lemma fr_bad_id gs r r' : f_id r = f_id r' -> fr_bad gs r = fr_bad gs r'.
+Lemma fr_bad_id mine gs r r' : f_id r = f_id r' -> fr_bad mine gs r = fr_bad mine gs r'.
 Proof. intros E. unfold fr_bad, fr_dead, fr_p1. rewrite E. reflexivity. Qed.
 
-Lemma fr_bad_member cds gs r : fr_inv cds gs -> fr_bad gs r = true -> exists h, In h cds /\ f_id h = f_id r.
+Lemma fr_bad_member cds gs r : fr_inv cds gs -> fr_bad cds gs r = true -> exists h, In h cds /\ f_id h = f_id r.
 Proof.
-  intros Inv H. unfold fr_bad in H. apply existsb_exists in H. destruct H as [g [Hg H]]. unfold fr_dead in H.
-  destruct (best_of g) as [b|]; [|discriminate]. apply existsb_exists in H. destruct H as [h [Hh Hp]].
-  apply (proj1 (fr_rank_order_In g h)) in Hh. unfold fr_p1 in Hp. apply andb_true_iff in Hp. destruct Hp as [P1 _].
-  apply Z.eqb_eq in P1. destruct (Inv g Hg) as [I1 _]. exists h. split; [apply I1; exact Hh|exact P1].
+  intros Inv H. unfold fr_bad in H. apply existsb_exists in H. destruct H as [g [Hg H]].
+  destruct (fr_dead_member cds g r H) as [b [h [_ [Hh [P1 _]]]]].
+  destruct (Inv g Hg) as [I1 _]. exists h. split; [apply I1; exact Hh|exact P1].
 Qed.
 
 Lemma fr_max_exists : forall l : list fhit, l <> [] -> exists m, In m l /\ forall x, In x l -> f_sc x <= f_sc m.
@@ -2433,14 +2596,14 @@ Proof.
   { apply filter_ext. intros r. unfold fr_keep. f_equal.
     destruct (fmem r (filter (fun h => negb (comp_best mine h)) mine)) eqn:Ef.
     - apply fr_fmem_iff in Ef. destruct Ef as [h [Hh Eid]]. apply filter_In in Hh. destruct Hh as [Hh Hc].
-      rewrite (fr_bad_id _ r h Eid). apply negb_true_iff in Hc.
+      rewrite (fr_bad_id mine _ r h Eid). apply negb_true_iff in Hc.
       pose proof (fr_keep_spec mine h Hwf Hd Hh) as K. rewrite Hc in K. unfold fr_keep in K.
       apply negb_false_iff in K. exact K.
-    - destruct (fr_bad (fr_groups mine) r) eqn:Eb; [|reflexivity]. exfalso.
+    - destruct (fr_bad mine (fr_groups mine) r) eqn:Eb; [|reflexivity]. exfalso.
       destruct (fr_bad_member mine _ r Inv Eb) as [h [Hh Eid]].
       assert (fmem r (filter (fun h => negb (comp_best mine h)) mine) = true); [|congruence].
       apply fr_fmem_iff. exists h. split; [|symmetry; exact Eid]. apply filter_In. split; [exact Hh|].
-      rewrite (fr_bad_id _ r h (eq_sym Eid)) in Eb.
+      rewrite (fr_bad_id mine _ r h (eq_sym Eid)) in Eb.
       pose proof (fr_keep_spec mine h Hwf Hd Hh) as K. unfold fr_keep in K. rewrite Eb in K. cbn in K.
       rewrite <- K. reflexivity. }
   rewrite EM, ER in Ecds. clear E1 E2.
@@ -3251,10 +3414,25 @@ Lemma C13_filter_groups_disjoint_proof cds g1 g2 : fwf cds = true -> In g1 (fr_g
 Proof. intros H. destruct (fr_fwf_spec cds H) as [_ ND]. exact (fr_groups_disjoint cds ND g1 g2). Qed.
 
 Lemma C13_filter_keep_iff mine r : fwf mine = true -> In r mine ->
-  (fr_keep mine r = false <-> exists g b, In g (fr_groups mine) /\ In r g /\ best_of g = Some b /\ b <> r).
+  (fr_keep mine r = false <-> exists g b, In g (fr_groups mine) /\ In r g /\ best_of (hit_order mine g) = Some b /\ b <> r).
 Proof.
   intros H Hr. destruct (fr_fwf_spec mine H) as [Hp ND]. destruct (fr_groups_spec mine ND) as [Inv _].
   unfold fr_keep. rewrite negb_false_iff. exact (fr_bad_iff mine _ r ND Inv Hr).
+Qed.
+
+Lemma C13_filter_best_of_proof mine g : fwf mine = true -> In g (fr_groups mine) ->
+  exists b, best_of (hit_order mine g) = Some b /\ In b g /\ forall x, In x g -> f_sc x <= f_sc b.
+Proof.
+  intros H Hg. destruct (fr_fwf_spec mine H) as [Hp ND]. destruct (fr_groups_spec mine ND) as [Inv _].
+  destruct (Inv g Hg) as [I1 [_ I3]]. destruct (fr_gbest_some mine g ND I1 I3) as [b Eb].
+  exists b. split; [exact Eb|]. exact (fr_gbest_spec mine g b ND I1 Eb).
+Qed.
+
+Lemma C13_filter_live_list_proof mine g done : fwf mine = true -> In g (fr_groups mine) -> incl done (fr_groups mine) ->
+  best_of (hit_order (filter (fun r => negb (fr_bad mine done r)) mine) g) = best_of (hit_order mine g).
+Proof.
+  intros H Hg Hd. destruct (fr_fwf_spec mine H) as [Hp ND]. destruct (fr_groups_spec mine ND) as [Inv _].
+  exact (fr_live_best mine (fr_groups mine) g done ND Inv (fr_groups_disjoint mine ND) Hg Hd).
 Qed.
 
 Lemma C13_comp_best_proof cds h : fwf cds = true -> In h cds ->
